@@ -79,6 +79,7 @@ type VC struct {
 	quantDepth int // >0 while the body of a quantifier is being translated
 	asserted   map[string]bool
 	liveSplits int
+	nameCount  map[string]int
 	usedContracts map[string]bool
 	namedFns   map[string]*types.Func
 	defs       map[string]string
@@ -197,11 +198,25 @@ func (vc *VC) posStr(p token.Pos) string {
 }
 
 // oblige records a proof obligation pc => cond and then assumes it.
+// uniqueName: obligations generated several times under the same name (ghost code / inlined models executed on
+// several paths) get an ordinal, so that every obligation has its own query file.
+func (vc *VC) uniqueName(name string) string {
+	if vc.nameCount == nil {
+		vc.nameCount = map[string]int{}
+	}
+	vc.nameCount[name]++
+	if n := vc.nameCount[name]; n > 1 {
+		return fmt.Sprintf("%s#%d", name, n)
+	}
+	return name
+}
+
 func (vc *VC) oblige(st *State, name, kind string, cond Term, pos token.Pos, text string) {
 	goal := Imp(st.pc, cond)
 	if goal.S == "true" {
 		return
 	}
+	name = vc.uniqueName(name)
 	o := &Obligation{Name: vc.fi.Key + "/" + name, Kind: kind, Func: vc.fi.Key, Pos: vc.posStr(pos), ScriptLen: len(vc.script), Goal: goal, Text: text, Values: vc.valuesOf(st)}
 	vc.obls = append(vc.obls, o)
 	vc.emit("(assert " + goal.S + ")")
@@ -214,6 +229,7 @@ func (vc *VC) obligeOnly(st *State, name, kind string, cond Term, pos token.Pos,
 	if goal.S == "true" {
 		return
 	}
+	name = vc.uniqueName(name)
 	o := &Obligation{Name: vc.fi.Key + "/" + name, Kind: kind, Func: vc.fi.Key, Pos: vc.posStr(pos), ScriptLen: len(vc.script), Goal: goal, Text: text, Values: vc.valuesOf(st)}
 	vc.obls = append(vc.obls, o)
 }
@@ -246,10 +262,41 @@ func (vc *VC) cover(st *State, name string, pos token.Pos) {
 	vc.obls = append(vc.obls, o)
 }
 
+var pcNameRe = regexp.MustCompile(`pc![0-9]+`)
+
+// relevantPCs: the path conditions the obligation's own path condition is built from (transitively).
+// Facts guarded by any other path condition belong to paths that cannot reach this obligation; leaving
+// them out of its query is sound (fewer hypotheses) and keeps contexts small under path splitting.
+func (vc *VC) relevantPCs(goal string) map[string]bool {
+	if !strings.HasPrefix(goal, "(=> pc!") {
+		return nil
+	}
+	root := pcNameRe.FindString(goal)
+	seen := map[string]bool{}
+	var walk func(n string)
+	walk = func(n string) {
+		if seen[n] {
+			return
+		}
+		seen[n] = true
+		for _, d := range pcNameRe.FindAllString(vc.defs[n], -1) {
+			walk(d)
+		}
+	}
+	walk(root)
+	return seen
+}
+
 func (vc *VC) query(o *Obligation) string {
 	var b strings.Builder
 	b.WriteString(prelude)
+	rel := vc.relevantPCs(o.Goal.S)
 	for _, l := range vc.script[:o.ScriptLen] {
+		if rel != nil && strings.HasPrefix(l, "(assert (=> pc!") {
+			if g := pcNameRe.FindString(l); !rel[g] {
+				continue
+			}
+		}
 		b.WriteString(l)
 		b.WriteString("\n")
 	}
